@@ -179,8 +179,9 @@ def op_verif_key(a):
     f = a["id"]
     r = _req(f)
     k = int(r.as_u32())
-    if hash(r) != hash(k):
-        raise SelfCheckFailure("hash(request id) != hash(as_u32())")
+    r2 = _req(f)
+    if not (r == r2) or hash(r) != hash(r2) or {r2: 1}.get(r) != 1:
+        raise SelfCheckFailure("two request ids built from the same fields are not interchangeable as dictionary keys")
     if a.get("tc"):
         k2 = int(RequestId.from_sp_header(_tc(f).sp_header).as_u32())
         if k2 != k:
